@@ -226,10 +226,6 @@ def Final (V : Variant) (P : Params) (s : PSt) : Prop :=
 def OpLang (V : Variant) (P : Params) (tr : List IoEv2) : Prop :=
   ∃ tr' s, tr = appendLines V P ++ tr' ∧ Steps V P (init P) tr' s ∧ Final V P s
 
-/-- the traces of the executions cut anywhere (what a crash sees) -/
-def OpPrefixLang (V : Variant) (P : Params) (tr : List IoEv2) : Prop :=
-  (∃ k, tr = (appendLines V P).take k) ∨ ∃ tr' s, tr = appendLines V P ++ tr' ∧ Steps V P (init P) tr' s
-
 theorem Steps.append {V : Variant} {P : Params} {s s1 s2 : PSt} {a b : List IoEv2}
     (h1 : Steps V P s a s1) (h2 : Steps V P s1 b s2) : Steps V P s (a ++ b) s2 := by
   induction h1 with
